@@ -60,5 +60,16 @@ except Exception as e:
 finally:
     subprocess.run(f"git -C /repo worktree remove --force {wt}", shell=True)
 meta["detected_by"] = [f"{r['check']}:{r['tier']}" for r in meta["ran"] if r["exit"] == 1]
+# a re-evaluation keeps what an earlier evaluation established (suite result, first results, annotations)
+old_path = os.path.join(out, "meta.json")
+if os.path.exists(old_path):
+    old = json.load(open(old_path))
+    for k, v in old.items():
+        if k not in meta or (k in ("suite_with_change", "suite_ok") and meta.get(k) is None):
+            meta[k] = v
+    if "first_ran" not in meta and old.get("ran"):
+        meta["first_ran"] = old["ran"]
+        meta["first_detected_by"] = old.get("detected_by", [])
+meta["detected_by_current"] = sorted({x.split(":")[0] for x in meta["detected_by"]})
 json.dump(meta, open(os.path.join(out, "meta.json"), "w"), indent=1, ensure_ascii=False)
 print(json.dumps({k: v for k, v in meta.items() if k != "demo_output_with_change"}, indent=1, ensure_ascii=False)[:3000])
